@@ -62,6 +62,10 @@ type Universe struct {
 	// ReverseDecl writes every dawn.toml with requirement names whose sorted order is the
 	// reverse of the declaration order, and lists equal-version tags in reverse order.
 	ReverseDecl bool `json:"reverse_decl,omitempty"`
+	// ReqSpelling spells every requirement path in every dawn.toml non-canonically but legally:
+	// "major" = explicit @v1 on a v0/v1 path, "dot" = "./" before the last element,
+	// "slash" = trailing slash. The graph is the same as with canonical spellings.
+	ReqSpelling string `json:"requirement_path_spelling,omitempty"`
 	// ExtraFiles adds ordinary files (BUILD.dawn, src/lib.txt) to every project checkout.
 	ExtraFiles bool `json:"extra_files,omitempty"`
 }
@@ -327,7 +331,34 @@ func (w *World) CheckoutFiles(m Req) int {
 	return 0
 }
 
+// SpellPath spells a module path non-canonically (see Universe.ReqSpelling).
+func SpellPath(p, mode string) string {
+	base, major := SplitMajor(p)
+	suffix := ""
+	if major != "" {
+		suffix = "@" + major
+	}
+	switch mode {
+	case "major":
+		if major == "" {
+			return base + "@v1"
+		}
+	case "dot":
+		if k := strings.LastIndexByte(base, '/'); k > 0 {
+			return base[:k] + "/./" + base[k+1:] + suffix
+		}
+	case "slash":
+		return base + "/" + suffix
+	}
+	return p
+}
+
 func renderTOML(name, version string, reqs []Req, reverse bool) []byte {
+	return RenderTOML(name, version, reqs, reverse, "")
+}
+
+// RenderTOML writes a dawn.toml.
+func RenderTOML(name, version string, reqs []Req, reverse bool, spelling string) []byte {
 	var b strings.Builder
 	if name != "" {
 		fmt.Fprintf(&b, "name = %q\n", name)
@@ -342,7 +373,7 @@ func renderTOML(name, version string, reqs []Req, reverse bool) []byte {
 			if reverse {
 				n = len(reqs) - 1 - i
 			}
-			fmt.Fprintf(&b, "r%d = {path = %q, version = %q}\n", n, q.Path, q.Version)
+			fmt.Fprintf(&b, "r%d = {path = %q, version = %q}\n", n, SpellPath(q.Path, spelling), q.Version)
 		}
 	}
 	return []byte(b.String())
@@ -385,7 +416,7 @@ func Build(u *Universe) *World {
 				if t.Rev != i {
 					continue
 				}
-				f := &file{name: t.Name, requires: t.Requires, toml: renderTOML(t.Name, t.Version, t.Requires, u.ReverseDecl)}
+				f := &file{name: t.Name, requires: t.Requires, toml: RenderTOML(t.Name, t.Version, t.Requires, u.ReverseDecl, u.ReqSpelling)}
 				if t.HasStale {
 					f.out = append(f.out, outFile{".dawnconfig", renderTOML(t.Name, "", t.Stale, u.ReverseDecl)})
 				}
